@@ -124,6 +124,28 @@ def _seeded(seed):
     }
 
 
+def _variants():
+    """The same seeded functions with OTHER arguments and the SAME seed: anything remembered between calls under a key that leaves
+    out part of the arguments (a memo keyed by the seed, by the shape, by the sample count ...) shows up when a variant precedes the
+    base call or the other way round."""
+    n2 = [2, 3, 2, 2]
+    g2 = space.grid_array([3, 2, 3])[::-1]
+    return {
+        'rand.alt(seed=0)': lambda: teneva.rand(n2, 3, seed=0),
+        'rand.alt_rank(seed=0)': lambda: teneva.rand([3, 2, 3], 3, seed=0),
+        'rand_norm.alt(seed=0)': lambda: teneva.rand_norm([3, 2, 3], [1, 2, 3, 1], m=1., s=2., seed=0),
+        'sample.alt(seed=0)': lambda: teneva.sample(space.tt([3, 2, 3], [1, 2, 2, 1], 'genpos', 0, tag=77), 5, seed=0),
+        'sample.alt_m(seed=0)': lambda: teneva.sample(_Ypos(), 6, seed=0),
+        'sample_lhs.alt(seed=0)': lambda: teneva.sample_lhs([3, 2, 3], 8, seed=0),
+        'sample_lhs.alt_n(seed=0)': lambda: teneva.sample_lhs([3, 3, 2], 7, seed=0),
+        'sample_rand.alt(seed=0)': lambda: teneva.sample_rand([2, 3, 3], 6, seed=0),
+        'sample_tt.alt(seed=0)': lambda: teneva.sample_tt([3, 2, 3], 1, seed=0),
+        'sample_square.alt(seed=0)': lambda: teneva.sample_square(_Y(3), 4, unique=False, seed=0),
+        'anova.alt(seed=0)': lambda: teneva.anova(g2, _f(g2) * 3.0 - 1.0, 2, 1, 1e-3, seed=0),
+        'sample_func.alt(seed=0)': lambda: teneva.sample_func(_Y(5, (3, 3)), seed=0),
+    }
+
+
 def _deterministic():
     grid = _grid()
     X = teneva.ind_to_poi(grid, -1., 1., 3, 'cheb')
@@ -204,6 +226,8 @@ def alphabet():
         for s in SEEDS:
             A['%s(seed=%d)' % (name, s)] = ('seeded', (lambda fn=fn, s=s: fn(s)))
         A['%s(gen)' % name] = ('seeded', (lambda fn=fn: fn(np.random.default_rng(5))))
+    for name, fn in _variants().items():
+        A[name] = ('seeded', fn)
     for name, fn in _deterministic().items():
         A[name] = ('det', fn)
     for name, fn in _defaults().items():
